@@ -17,7 +17,8 @@ Stand-ins
                 variants: one coefficient of one reaction +-1 (any of reac/prod/inact_reac/inact_prod; the first,
                 a middle or the last reaction), or ONE composition key of one participating substance changed by
                 +-1 (exactly one violated key; key 0 = charge only in about a third of them; positive and negative
-                net).  Expected: ValueError whose message contains one of the violated keys as a token.
+                net).  Expected: ValueError whose message contains one of the violated keys as a token; the
+                non-throwing rsys.check_balance() of the same system built with checks=() returns balanced?.
   balance_vectors  composition_balance_vectors() == ([[comp_s.get(k,0) for s in substances] for k in sorted keys],
                 sorted keys);  A @ rsys.rates(c) == 0 exactly for random Fraction concentrations/rate constants;
                 get_odesys(...).linear_invariants and _create_odesys(...).linear_invariants equal A, names str(k).
@@ -127,14 +128,14 @@ def violated_keys(comp, rx):
     return out
 
 
-def build_system(case, param_mode="plain"):
+def build_system(case, param_mode="plain", **kw):
     """the REAL constructor call"""
     from chempy import ReactionSystem, Substance
     spec = {"subst": [d["name"] for d in case["substances"]], "rxns": case["rxns"]}
     rxns = G.build_reactions(spec, param_mode)
     if case.get("via_factory") and all(d["kind"] == "formula" for d in case["substances"]):
-        return ReactionSystem(rxns, list(spec["subst"]), substance_factory=Substance.from_formula)
-    return ReactionSystem(rxns, make_substances(case["substances"]))
+        return ReactionSystem(rxns, list(spec["subst"]), substance_factory=Substance.from_formula, **kw)
+    return ReactionSystem(rxns, make_substances(case["substances"]), **kw)
 
 
 # ----------------------------------------------------------------------------- generator
@@ -344,6 +345,10 @@ def check_admission(case):
         accepted, msg, exc = False, str(e), type(e).__name__
     if exc is not None:
         return ["ReactionSystem(...) raised %s: %s (expected %s)" % (exc, msg, "ValueError" if bad else "acceptance")]
+    # the non-throwing form of the same check, on a system built without checks
+    ok, res = G.call(lambda: build_system(sysdef, checks=()).check_balance())
+    if not ok or res is not (not bad):
+        return ["check_balance() on the unchecked system -> %s, expected %s (violated: %s)" % (res, not bad, bad)]
     if not bad:
         return [] if accepted else ["balanced system (%s) rejected: %s" % (case["what"], msg)]
     if accepted:
